@@ -3,10 +3,13 @@
 import json, sys
 pid = sys.argv[1]
 n = sys.argv[2] if len(sys.argv) > 2 else "2"
+rnd = sys.argv[3] if len(sys.argv) > 3 else "1"
+wt = f"/tmp/wt-{pid}" if rnd == "1" else f"/tmp/wt-{pid}-r{rnd}"
+outd = f"/tmp/seedout/{pid}" if rnd == "1" else f"/tmp/seedout/{pid}-r{rnd}"
 p = [json.loads(l) for l in open('/verif/properties.jsonl') if json.loads(l)['id'] == pid][0]
 print(f"""You are helping test a verification framework by producing realistic *property-breaking* code changes ("seeded bugs") for the Rust gRPC library hyperium/tonic (version 0.13.0 snapshot).
 
-Your private scratch git worktree of the repository is at /tmp/wt-{pid} (already created; work ONLY there; never touch /repo or /verif, never read anything under /verif). The machine is offline: always pass --offline to cargo, and set CARGO_TARGET_DIR=/tmp/wt-{pid}/target for every cargo command so build output stays inside your worktree. 16 cores are shared with other jobs, so prefer `cargo test -p <crate> --offline` on the crates you touch over whole-workspace builds.
+Your private scratch git worktree of the repository is at {wt} (already created; work ONLY there; never touch /repo or /verif, never read anything under /verif). The machine is offline: always pass --offline to cargo, and set CARGO_TARGET_DIR={wt}/target for every cargo command so build output stays inside your worktree. 16 cores are shared with other jobs, so prefer `cargo test -p <crate> --offline` on the crates you touch over whole-workspace builds.
 
 The property (this is all you are told about what the framework checks):
 
@@ -14,13 +17,13 @@ The property (this is all you are told about what the framework checks):
   Statement: {p['statement']}
   Quantified over: {p['quantifier']['text']}
 
-Task: produce {n} DIFFERENT, independent changes to tonic's source (library code under tonic/, tonic-web/, tonic-health/, tonic-reflection/, tonic-types/, tonic-build/ as relevant — not tests, not examples) each of which
+Task: produce {n} DIFFERENT, independent changes (each in a different function or mechanism, so that they do not overlap) to tonic's source (library code under tonic/, tonic-web/, tonic-health/, tonic-reflection/, tonic-types/, tonic-build/ as relevant — not tests, not examples) each of which
   (a) makes the property above false for the real code,
   (b) still compiles (whole workspace: `cargo build --workspace --offline` is not required, but every crate you touched and the crates under tests/ that depend on it must compile), and
   (c) still passes the existing test suite (run at least `cargo test -p <touched crate> --offline` plus the relevant integration crates: tests/integration_tests (package `integration-tests`), tests/compression (package `compression`), tests/web (package `test_web`) when they exercise the code you changed). Note: the test `connect_handles_tls` in integration-tests already fails on the unchanged tree (expired certs / no network); ignore it.
   (d) is *subtle*: it must need something specific to manifest — a particular interleaving or readiness pattern, a crash or fault at a particular point, a multi-step sequence of operations, an unusual input or boundary value, a particular configuration, or two cooperating sites that each look fine alone. Do NOT produce a change that ordinary use (a plain unary call with default settings and a small message) would expose at once. Think like a plausible regression a maintainer could introduce in a refactor or "optimisation".
 
-For each change i (1..{n}) deliver, under /tmp/seedout/{pid}/m<i>/ :
+For each change i (1..{n}) deliver, under {outd}/m<i>/ :
   - patch.diff : `git diff` of the change against the worktree's HEAD (apply-able with `git apply` at the repository root). Keep each patch minimal.
   - a demonstration: a self-contained Rust test file demo.rs together with a README.md saying exactly where to put it and how to run it (for example: "copy to tonic/tests/demo.rs (or tests/integration_tests/tests/demo.rs) and run `cargo test -p tonic --test demo --offline`"). The demonstration must FAIL with the change applied and PASS without it. It should use only public APIs of the tonic crates (and dev-dependencies the target crate already has).
   - meta.json : {{"property": "{pid}", "summary": "<one line>", "needs": "<what specific input / schedule / configuration / sequence is needed for it to manifest>", "files": [..], "demo_dest": "<path relative to the repository root where demo.rs must be copied, e.g. tests/integration_tests/tests/demo_{pid}_m1.rs>", "demo_cmd": "<exact cargo command that runs only the demo, e.g. cargo test -p integration-tests --test demo_{pid}_m1 --offline>", "tests_run": ["<commands you ran and their result>"]}}
